@@ -12,7 +12,8 @@ PID = "C03"
 RULE = ("Programs are lists of items (NOP, RMB n, LDA 100,X, LDX #$1234, a branch to a label, a label,PCR / [label,PCR] "
         "/ label+-k,PCR operand) with labels attached to items, so every byte distance is known by construction. "
         "Enumerated: every short branch x both directions x every displacement -140..+140; every long branch x both "
-        "directions x 0..140 (all 19) and 32750..32780 (LBRA LBSR LBEQ LBNE); label,PCR on LDA LEAX STA JMP (1-byte "
+        "directions x 0..140 (all 19) and 32750..32780 (LBRA LBSR LBEQ LBNE); all 38 branches to label+-k (k in 1,2,5) "
+        "at four distances, which may be refused but if accepted must reach label+k; label,PCR on LDA LEAX STA JMP (1-byte "
         "opcode) and LDY STS CMPD (2-byte) x plain/indirect x k in {-2,0,+2} x both directions x distance 0..140 with "
         "three filler styles, and 32750..32780 for LDA/LDY; constants of +-100..200 with the label in either order of "
         "writing (T0+120 and 120+T0) at distances 0..35; offsets written with an explicit < or > prefix at distances "
@@ -31,7 +32,7 @@ ASSUMPTIONS = [
     "label addresses are established by walking the image; the symbol table and listing must agree with the walk",
     "hangs and crashes are judged by C13 (counted as skipped here)",
 ]
-HEALTH = {"near_limit": 0.04, "include_twice": 300}
+HEALTH = {"near_limit": 0.04, "include_twice": 300, "branch_with_constant": 600}
 EXHAUSTIVE = {"quick": ["short branches: 19 mnemonics x displacement -140..+140",
                         "long branches: 19 mnemonics x both directions x distance 0..140",
                         "label,PCR: 7 mnemonics x plain/indirect x k in -2,0,2 x both directions x distance 0..140",
@@ -61,7 +62,8 @@ def item_text(item):
     if t == "inc":          # the macro file (label-free filler statements), spliced by INCLUDE
         return A.line("", "INCLUDE", MACRO_FILE)
     if t == "br":
-        return A.line(lab, item["mn"], item["to"])
+        k = item.get("k", 0)        # a constant written with the label: BNE T0+1
+        return A.line(lab, item["mn"], item["to"] + ("" if k == 0 else "%+d" % k))
     if t == "pcr":
         k = item.get("k", 0)
         if item.get("rev") and k > 0:       # the constant written first: 120+T0,PCR
@@ -150,6 +152,12 @@ def enumerated(tier, seed):
                 yield one_source(dict(t="br", mn=mn, to="T0"), d, True, d % 3)
             elif d <= -2:
                 yield one_source(dict(t="br", mn=mn, to="T0"), -d - 2, False, d % 3)
+    # 1b. a branch to a label with a constant (BNE T0+1): refused or reaching label+constant, never somewhere else
+    for mn in SHORT + LONG:
+        for k in (-2, -1, 1, 2, 5):
+            for dist in (0, 1, 10, 100):
+                for forward in (True, False):
+                    yield one_source(dict(t="br", mn=mn, to="T0", k=k), dist, forward, dist % 3)
     # 2. long branches
     for mn in LONG:
         far = range(32750, 32781) if mn in ("LBRA", "LBSR", "LBEQ", "LBNE") else []
@@ -399,7 +407,11 @@ def execute(case):
                 near = True
         if it["t"] == "pcr" and it.get("pre") == "<" and (dmax > 127 or dmin < -128):
             may_reject = True       # a forced 8-bit offset that cannot hold the displacement
-        if it["t"] == "br" and it["mn"] in SHORT:
+        if it["t"] == "br" and it.get("k", 0):
+            may_reject = True       # the tool may refuse a label expression as a branch target; accepted, it must be reached
+            if "branch_with_constant" not in labels:
+                labels.append("branch_with_constant")
+        elif it["t"] == "br" and it["mn"] in SHORT:
             if dmin > 127 or dmax < -128:
                 must_reject = True
             if dmax > 127 or dmin < -128:
@@ -479,7 +491,7 @@ def execute(case):
             if insn.nf[0] != "rel":
                 return viol("{}: not a relative instruction: {}".format(text, insn.nf), fid="C03:mode", labels=labels)
             d = insn.nf[1]
-            k = 0
+            k = it.get("k", 0)
         else:
             if insn.nf[0] != "idx" or insn.nf[2] != "pcr" or insn.nf[4] != bool(it.get("ind")):
                 return viol("{}: not encoded as the PC-relative form written: {}".format(text, insn.nf),
